@@ -314,6 +314,37 @@ def run(ctx):
                         "discarded" if full.unitcell_lengths is None else "kept", "discarded" if part.unitcell_lengths is None else "kept", ai), dict(atom_indices=ai)))
     except Exception as e:  # noqa: BLE001
         ctx.broke("harness:pdb-dummy-cell", "%s: %s" % (type(e).__name__, e))
+    # files that hold no time stamps (written through the file objects without a time argument): the frames are then numbered by their
+    # position in the file, in a full load and in every partial load alike
+    try:
+        import mdtraj as md
+        from mdtraj.formats import HDF5TrajectoryFile, NetCDFTrajectoryFile
+        env0 = next(iter(envs.values()))
+        src = env0.t
+        for ext in ("h5", "nc"):
+            pth = os.path.join(ctx.scratch, "notime." + ext)
+            if ext == "h5":
+                with HDF5TrajectoryFile(pth, "w") as fh:
+                    fh.write(src.xyz); fh.topology = src.topology
+                kw = {}
+            else:
+                with NetCDFTrajectoryFile(pth, "w") as fh:
+                    fh.write(src.xyz * 10)
+                kw = dict(top=env0.top)
+            full = md.load(pth, **kw)
+            nfl = full.n_frames
+            calls = [("load(stride=%d)" % s_, lambda s_=s_: md.load(pth, stride=s_, **kw), list(range(0, nfl, s_))) for s_ in (2, 3)]
+            calls += [("load_frame(%d)" % i_, lambda i_=i_: md.load_frame(pth, i_, **kw), [i_]) for i_ in (0, nfl // 2, nfl - 1)]
+            for c_, s_, k_ in ((3, 1, 0), (2, 2, 1), (4, 3, 0)):
+                calls.append(("iterload(chunk=%d, stride=%d, skip=%d)" % (c_, s_, k_), lambda c_=c_, s_=s_, k_=k_: md.join(list(md.iterload(pth, chunk=c_, stride=s_, skip=k_, **kw))), list(range(k_, nfl, s_))))
+            for name, fn, ids in calls:
+                part = fn()
+                ctx.case(None, ("notime", ext, name)); ctx.count("calls:files-without-time-stamps")
+                err = fields_match(part, full, ids, None)
+                if err:
+                    seen.setdefault("%s|no-time-stamps|partial-load" % ext, ("md.%s on a .%s file without time stamps: %s" % (name, ext, err), dict(call=name, ext=ext)))
+    except Exception as e:  # noqa: BLE001
+        ctx.broke("harness:notime", "%s: %s" % (type(e).__name__, e))
     # legacy .lh5 files cannot be written in this environment (PyTables rejects the topology string array), but they are readable: the one in
     # the repository's test data (501 frames, 22 atoms) is loaded partially and compared with slices of its full load
     try:
